@@ -91,6 +91,10 @@ def parse_telegram_url(url):
     parsed = safe_urlsplit(url)
     path = pathsplit(parsed.path)
 
+    # NOTE: an empty path segment is no name nor id
+    if not all(path):
+        return None
+
     if path:
 
         if path[0] == "s":
